@@ -207,3 +207,31 @@ func init() {
 		}
 	}
 }
+
+func init() {
+	debugCmds["stores"] = func(args []string) {
+		p, _ := loadProg("/repo", "")
+		fn := p.Func(args[0], args[1], args[2])
+		env := newTermEnv()
+		for _, b := range fn.Blocks {
+			for _, ins := range b.Instrs {
+				switch x := ins.(type) {
+				case *ssa.Store:
+					fmt.Println("STORE", canonTerm(env.Term(x.Addr)), ":=", canonTerm(env.Term(x.Val)))
+				case *ssa.Call:
+					var as []string
+					for _, a := range x.Call.Args {
+						as = append(as, canonTerm(env.Term(a)))
+					}
+					fmt.Println("CALL", x.Call.Value.Name(), as)
+				case *ssa.Return:
+					var as []string
+					for _, a := range x.Results {
+						as = append(as, canonTerm(env.Term(a)))
+					}
+					fmt.Println("RET", as)
+				}
+			}
+		}
+	}
+}
